@@ -178,7 +178,7 @@ def check_set(names, rng, res: CaseResult, perm_limit=24, where='fn'):
 
 # ---- through real chains ------------------------------------------------------------------------------------------
 
-def build_chain(names, tmp, with_consumer=True, short_inputs=None, self_inputs=None, arg_consumers=None, rebuild=False):
+def build_chain(names, tmp, with_consumer=True, short_inputs=None, self_inputs=None, arg_consumers=None, rebuild=False, exclude_in=None):
     """Real chain whose task full names are exactly `names` (+ a consumer that has all of them as inputs)."""
     from taskchain import Config, Task
     from taskchain.data import JSONData  # noqa
@@ -209,6 +209,9 @@ def build_chain(names, tmp, with_consumer=True, short_inputs=None, self_inputs=N
     def mkconf(ns):
         children = sorted(c for c in all_ns if len(c) == len(ns) + 1 and c[:len(ns)] == ns)
         data = {'tasks': list(by_ns.get(ns, [])), 'uses': [mkconf(c) for c in children], 'p': '::'.join(ns)}
+        if exclude_in is not None and ns == exclude_in[0]:
+            # this config excludes a class that only OTHER configs declare: nothing changes anywhere
+            data['excluded_tasks'] = list(exclude_in[1])
         if short_inputs and short_inputs.get(ns):
             # a dependant in this namespace that names its inputs by short forms (relative to its own namespace)
             smeta = type('Meta', (), {'name': 'zz_short', 'input_tasks': list(short_inputs[ns])})
@@ -218,6 +221,12 @@ def build_chain(names, tmp, with_consumer=True, short_inputs=None, self_inputs=N
             data['tasks'] = data['tasks'] + [type('ShortConsumer', (Task,), {'Meta': smeta, 'run': srun, '__module__': __name__})]
         return Config(tmp, name='c_' + '_'.join(ns) if ns else 'root', namespace=ns[-1] if ns else None, data=data)
 
+    if exclude_in == 'auto':
+        exclude_in = None
+        cands_ = [(ns_, [c_ for ns2_, cl_ in by_ns.items() if ns2_ != ns_ for c_ in cl_ if c_ not in by_ns.get(ns_, [])]) for ns_ in sorted(all_ns)]
+        cands_ = [(ns_, cl_) for ns_, cl_ in cands_ if cl_]
+        if cands_:
+            exclude_in = cands_[len(names) % len(cands_)]
     root = mkconf(())
     if with_consumer:
         meta = type('Meta', (), {'name': 'zz_consumer', 'input_tasks': list(names)})
@@ -372,7 +381,7 @@ def check_chain(names, rng, res: CaseResult):
                                     witness={'names': names, 'ns': list(ns), 'input': q})
         try:
             rebuild = not short_ok and rng.random() < 0.5
-            chain = chain_s if short_ok else build_chain(names, tmp, rebuild=rebuild)
+            chain = chain_s if short_ok else build_chain(names, tmp, rebuild=rebuild, exclude_in='auto' if rng.random() < 0.5 else None)
             if rebuild:
                 res.count('chains_built_twice_from_the_same_config_objects')
                 if sorted(chain.tasks) != chain._first_build_names:
